@@ -4,12 +4,14 @@
    REAL MemoryMapBroker returned for it.  Epoch strings are canonicalised by the driver, per
    run and per channel, to the nonce token of the operation that first produced them.
      corr   = each implementation equals its model + the Go glue put on the wire exactly the
-              commands / KEYS / ARGV the model builds;
+              commands / KEYS / ARGV the model builds + (tie shallow <-> interpreted real Lua) the
+              Redis-side model run with the shallow scripts gives the same observables and the same
+              final Redis state as with the interpreted ASTs;
      oracle = the property: the two implementations' observables are equal (state contents
               compared in key order = up to unordered page boundaries). *)
 From Coq Require Import List NArith ZArith Bool String Ascii.
 From Cfg Require Export Lib.Run Model.RStr Model.Redis Model.MapApi23 Model.RedisMapBroker Model.MemMap23
-                        Model.RedisMapServer.
+                        Model.RedisMapServer Model.RedisMapScripts.
 Import ListNotations.
 Open Scope string_scope.
 
@@ -79,10 +81,38 @@ Record case := mkCase {
   o_wire : list (list (list string))
 }.
 
+Fixpoint rm_run_st (SC : mscripts) (cf : mcfg) (st : rstate) (ops : list mop) : rstate * list mres :=
+  match ops with
+  | [] => (st, [])
+  | o :: r => let '(st', ob) := rm_step SC cf st o in
+              let '(st'', obs) := rm_run_st SC cf st' r in (st'', ob :: obs)
+  end.
+
+Definition sid_eqb (a b : sid) : bool := ((fst a =? fst b) && (snd a =? snd b))%N.
+Definition pair_eqb {A B} (f : A -> A -> bool) (g : B -> B -> bool) (a b : A * B) : bool :=
+  f (fst a) (fst b) && g (snd a) (snd b).
+Definition rval_eqb (a b : rval) : bool :=
+  match a, b with
+  | VStr x, VStr y => String.eqb x y
+  | VHash x, VHash y => list_eqb (pair_eqb String.eqb String.eqb) x y
+  | VList x, VList y => list_eqb String.eqb x y
+  | VStream x l, VStream y l' =>
+      list_eqb (fun e f => sid_eqb (e_id e) (e_id f) && list_eqb String.eqb (e_fv e) (e_fv f)) x y && sid_eqb l l'
+  | VZSet x, VZSet y => list_eqb (pair_eqb String.eqb Z.eqb) x y
+  | _, _ => false
+  end.
+Definition rstate_eqb (a b : rstate) : bool :=
+  list_eqb (pair_eqb String.eqb (fun x y => rval_eqb (k_val x) (k_val y) && opt_eqb N.eqb (k_exp x) (k_exp y)))
+           (store a) (store b)
+  && (now a =? now b)%N.
+
 Definition corr (c : case) : bool :=
-  mress_eqb (rm_run map_interp (c_cfg c) rinit (c_ops c)) (o_redis c)
+  let '(st_in, m_in) := rm_run_st map_interp (c_cfg c) rinit (c_ops c) in
+  let '(st_sh, m_sh) := rm_run_st map_shallow (c_cfg c) rinit (c_ops c) in
+  mress_eqb m_in (o_redis c)
   && mress_eqb (mem_map_run (c_cfg c) (c_ops c)) (o_mem c)
-  && list_eqb (list_eqb (list_eqb String.eqb)) (map (map_wire (c_cfg c)) (c_ops c)) (o_wire c).
+  && list_eqb (list_eqb (list_eqb String.eqb)) (map (map_wire (c_cfg c)) (c_ops c)) (o_wire c)
+  && mress_eqb m_sh m_in && rstate_eqb st_sh st_in.
 
 Definition oracle (c : case) : bool := mress_eqb (o_redis c) (o_mem c).
 
